@@ -160,6 +160,8 @@ def check_finder(m, rng, tier):
                 fails += f if must[j] else [t for t in f if "does not contain" in t]
                 found[j] &= not f
         idx = np.nonzero(found)[0]                  # batch of the points located one by one: any order, with repetitions
+        if len(idx) == 0:
+            continue
         idx = rng.permutation(np.concatenate([idx, idx[rng.randint(len(idx), size=8)]]))
         fails += clause_contains(finder, x[:, idx], rel[:, idx], vname + " batch of points that are each located when queried alone")
         fails += clause_contains(finder, x[:, idx[[0, 0]]], rel[:, idx[[0, 0]]], vname + " same point twice")
@@ -226,12 +228,12 @@ def check_element(m, make_elem, rng, tier):
                                 ("interpolator(y)", lambda: np.asarray(b.interpolator(y)(x[:, idx])), cshape + (len(idx),))):
             try:
                 r = fn()
+                if r.shape != shape:
+                    fails.append("[EVAL-SHAPE] %s(%s) has shape %s, expected %s (%d components, %d points, N=%d)" % (kind, what, r.shape, shape, comp, len(idx), N))
+                    r = None
             except Exception as e:
                 fails.append("[FIND-CONTAINS] %s(%s) raised %s (%s) for %d point(s) of the closed meshed domain (first: %s)"
                              % (kind, what, type(e).__name__, e, len(idx), x[:, idx[0]].tolist()))
-                r = None
-            if r is not None and r.shape != shape:
-                fails.append("[EVAL-SHAPE] %s(%s) has shape %s, expected %s (%d components, %d points, N=%d)" % (kind, what, r.shape, shape, comp, len(idx), N))
                 r = None
             if r is not None:
                 fails.extend(clause_values(r, E, idx, "%s(%s)" % (kind, what), None if kind == "probes" else y))
@@ -240,6 +242,8 @@ def check_element(m, make_elem, rng, tier):
     # any number: every point on its own; the sets below use the points that can be located alone
     ok = np.array([j for j in range(x.shape[1]) if evaluate(basis, np.array([j]), "single point")[0] is not None], dtype=int)
     h = len(ok) // 2
+    if h == 0:
+        return fails + ["[FIND-CONTAINS] fewer than two of the %d points of the closed domain could be evaluated alone" % x.shape[1]], {}
     i1 = rng.permutation(np.concatenate([ok[:h], ok[rng.randint(h, size=5)]]))              # any order, with repetitions
     i2 = rng.permutation(np.concatenate([ok[h:2 * h], ok[h + rng.randint(h, size=5)]]))     # a different set of the same size
     evaluate(basis, i1, "first set")
@@ -319,10 +323,18 @@ def all_meshes(tier, seed):
             yield "%s~r%d" % (label, v), Z.renumbered(m, rng)[0]
 
 
+def round_robin(fails, n):
+    """at most n failure records, taking turns between the clauses (the text up to ']') so that no clause hides another."""
+    groups = {}
+    for f in fails:
+        groups.setdefault((f if isinstance(f, str) else f["observed"]).split("]")[0], []).append(f)
+    return [f for row in itertools.zip_longest(*groups.values()) for f in row if f is not None][:n]
+
+
 def run(payload):
     tier, seed, only = payload.get("tier", "quick"), int(payload.get("seed", 0)), payload.get("only")
     master = np.random.RandomState(seed)
-    cases, failures, samples = 0, {}, []
+    cases, failures, samples = 0, [], []
     for mlabel, m in all_meshes(tier, seed):
         for ename, make in [("finder", None)] + elements_for(m):
             label = "%s|%s" % (mlabel, ename)
@@ -337,13 +349,9 @@ def run(payload):
                 fl, info = ["[EXCEPTION] %s: %s | %s" % (type(e).__name__, e, traceback.format_exc()[-400:])], {}
             if len(samples) < 3:
                 samples.append(dict(case=label, cells=int(m.t.shape[1]), **info))
-            for f in fl[:3]:
-                small = m.p.size < 80 and m.t.size < 120
-                failures.setdefault(f.split("]")[0], []).append(dict(
-                    input=dict(case=label, p=m.p.tolist() if small else "see zoo / extra_meshes", t=m.t.tolist() if small else "see zoo / extra_meshes"),
-                    observed=f, replay=dict(kind="points_case", only=label, tier=tier, seed=seed)))
-    nfail = sum(len(v) for v in failures.values())
-    shown = [f for row in itertools.zip_longest(*failures.values()) for f in row if f is not None][:20]    # round robin over the clauses
+            small = m.p.size < 80 and m.t.size < 120
+            inp = dict(case=label, p=m.p.tolist() if small else "see zoo / extra_meshes", t=m.t.tolist() if small else "see zoo / extra_meshes")
+            failures += [dict(input=inp, observed=f, replay=dict(kind="points_case", only=label, tier=tier, seed=seed)) for f in round_robin(fl, 3)]
     q = tier == "quick"
     bound = (Z.describe(tier) + "; plus graded / anisotropic / sheared / tapered meshes and non-convex domains (hole, L) %s, each also under %d renumbering(s). "
              "Per mesh one finder case (element_finder() and element_finder(mapping=)): %s interior / vertex / face-edge-diagonal points of the closed domain "
@@ -353,7 +361,7 @@ def run(payload):
              "twice, used-vs-fresh basis, point_source at 6 points, all quadrature points vs interpolate(); the probes matrix itself is compared (= all "
              "coefficient vectors), the interpolator with one random vector."
              % ([l for l, _ in extra_meshes()], 1 if q else 3, "40/20/60" if q else "100/50/150", 10 if q else 30, "12/8/16" if q else "40/24/60"))
-    return dict(cases=cases, failures=shown, nfailures=nfail, samples=samples, nontrivial=cases, bound=bound)
+    return dict(cases=cases, failures=round_robin(failures, 20), nfailures=len(failures), samples=samples, nontrivial=cases, bound=bound)
 
 
 def replay_points_case(sp):
